@@ -120,7 +120,11 @@ def check_C03(tier, seed):
     keep = ["groups", "push_stages"]
     drive_and_judge(rep, "C03", cases_from_S(r1.cases, "shape", "stages-shape"), "shape", keep)
     drive_and_judge(rep, "C03", cases_from_S(r2.cases, "ctx", "stages-ctx"), "ctx", keep)
-    drive_and_judge(rep, "C03", random_shader_cases(rng, 1200 if quick else 30000, "rnd", "stages-random", n_fn=(0, 6), n_entry=(1, 5), depth=3, push=0.5), "random", keep)
+    rc = random_shader_cases(rng, 1200 if quick else 30000, "rnd", "stages-random", n_fn=(0, 6), n_entry=(1, 5), depth=3, push=0.5)
+    drive_and_judge(rep, "C03", rc, "random", keep)
+    # a subset is compiled against the recording device: the visibility VALUES the generated code passes, not their tokens
+    sub = cases_from_S(r2.cases[::(60 if quick else 6)], "ctxr", "stages-ctx-recorded", vary_validate=False) + [dict(c, id="r" + c["id"], family="stages-random-recorded") for c in rc[:(80 if quick else 1500)]]
+    compiled_and_judge(rep, "C03", sub, "recorded", "shim", {"pipeline_layout"}, keep=["groups"], enforce="C03R")
     return finish(rep)
 
 
@@ -174,6 +178,12 @@ def check_C13(tier, seed):
     keep = ["push_stages", "pipeline_layout"]
     cases = F.push_cases(rng, 600 if quick else 12000)
     drive_and_judge(rep, "C13", cases, "push", keep)
+    # the descriptor the compiled module really hands to the device (recording shim) ...
+    sub = [dict(c, id="r" + c["id"], family="push-recorded") for c in cases[:(120 if quick else 2000)]]
+    compiled_and_judge(rep, "C13", sub, "recorded", "shim", {"pipeline_layout"}, keep=["push_stages"], enforce="C13R")
+    # ... and real wgpu's create_pipeline_layout on the no-op device (PUSH_CONSTANTS enabled, max_push_constant_size 256)
+    sub2 = [dict(c, id="w" + c["id"], family="push-wgpu") for c in cases[:(120 if quick else 2000)]]
+    compiled_and_judge(rep, "C13", sub2, "wgpu", "realrun", {"wgpu"}, keep=["push_stages"], enforce="C13R")
     return finish(rep)
 
 
